@@ -185,6 +185,21 @@ def nli (len : α) (cs : List (LCh α)) : List α := nliFrom len cs 0 cs
 def computeNli (fib : Fibre α) (chans : List (α × α × α)) : Option (List α) :=
   (loadAll fib chans).map (nli fib.len)
 
+/-! ### `SpectralInformation.__init__`: `indices = argsort(frequency)` – the channels are put in ascending frequency
+whatever the order they were supplied in (the frequencies of an accepted comb are distinct) -/
+
+/-- insert a channel `(f, baud, power)` into a list sorted by frequency -/
+def insertByF (c : α × α × α) : List (α × α × α) → List (α × α × α)
+  | [] => [c]
+  | d :: rest => if c.1 < d.1 then c :: d :: rest else d :: insertByF c rest
+
+def sortByF : List (α × α × α) → List (α × α × α)
+  | [] => []
+  | c :: rest => insertByF c (sortByF rest)
+
+/-- constructor + `compute_nli`: channels supplied in any order; the result is in ascending frequency -/
+def computeNliAny (fib : Fibre α) (chans : List (α × α × α)) : Option (List α) := computeNli fib (sortByF chans)
+
 /-! ### the same closed form with the weight decided by the frequencies (index-free form used for
 the order/added-channel laws; equal to `nli` on combs with pairwise distinct frequencies) -/
 
